@@ -114,7 +114,7 @@ class LogitLink(Link):
         -------
         lp : np.array of length n
         """
-        return np.log(mu) - np.log(dist.levels - mu)
+        return np.log(mu) - np.log(getattr(dist, 'levels', 1) - mu)
 
     def mu(self, lp, dist):
         """
@@ -131,7 +131,7 @@ class LogitLink(Link):
         mu : np.array of length n
         """
         # levels * exp(lp) / (exp(lp) + 1) without inf / inf for large lp
-        return dist.levels / (1 + np.exp(-lp))
+        return getattr(dist, 'levels', 1) / (1 + np.exp(-lp))
 
     def gradient(self, mu, dist):
         """
@@ -146,7 +146,7 @@ class LogitLink(Link):
         -------
         grad : np.array of length n
         """
-        return dist.levels / (mu * (dist.levels - mu))
+        return getattr(dist, 'levels', 1) / (mu * (getattr(dist, 'levels', 1) - mu))
 
 
 class LogLink(Link):
